@@ -3,6 +3,7 @@ package harness
 import (
 	"encoding/json"
 	"math/rand/v2"
+	"strings"
 
 	"github.com/google/uuid"
 	"github.com/semafind/semadb/models"
@@ -70,8 +71,8 @@ func genComposite(r *rand.Rand, schema models.IndexSchema, idPool, depth int) mo
 	return models.Query{Property: "_or", Or: subs}
 }
 
-var selectPaths = []string{"s", "n", "f", "t", "vf", "meta", "meta.tag", "meta.k", "x", "y", "nope", "s.x", "meta.tag.z", "extra"}
-var sortPaths = []string{"n", "f", "s", "meta.tag"}
+var selectPaths = []string{"s", "n", "f", "t", "vf", "meta", "meta.tag", "meta.k", "x", "y", "nope", "s.x", "meta.tag.z", "extra", "deepdoc.a.b.c", "deepdoc.a.b.d", "deepdoc.a.b", "deepdoc.a", "x.deep.k", "y.k.deep"}
+var sortPaths = []string{"n", "f", "s", "meta.tag", "deepdoc.a.b.c", "deepdoc.a.b.d"}
 
 func genSelectSort(r *rand.Rand) ([]string, []models.SortOption) {
 	var sel []string
@@ -96,7 +97,7 @@ func genSelectSort(r *rand.Rand) ([]string, []models.SortOption) {
 				// sort fields must be selected first (documented)
 				ok := false
 				for _, s := range sel {
-					if s == p || (p == "meta.tag" && s == "meta") {
+					if s == p || (p == "meta.tag" && s == "meta") || (strings.HasPrefix(p, "deepdoc.") && strings.HasPrefix(p, s+".")) {
 						ok = true
 					}
 				}
